@@ -480,10 +480,10 @@ def ref(cool_uri, factor, nproc, chunksize, field, out, append):
                    lock=lock if same_file else None, mode="a" if append else "w")
 ''')
 
-ref('cooler.util.natsort_key', 'cooler.util', 'natural sort key: digit runs compare as integers, the rest as text, empty pieces dropped',
+ref('cooler.util.natsort_key', 'cooler.util', 'natural sort key: runs of decimal digits compare as integers (only what int() accepts: isdecimal, not isdigit), the rest as text, empty pieces dropped',
     ['C15', 'C17', 'C20'])('''
 def ref(s, _NS_REGEX=re.compile(r"(\\d+)", re.U)):
-    return tuple([int(x) if x.isdigit() else x for x in _NS_REGEX.split(s) if x])
+    return tuple([int(x) if x.isdecimal() else x for x in _NS_REGEX.split(s) if x])
 ''')
 
 ref('cooler.util.atoi', 'cooler.util', 'integer with thousands separators', ['C19'])('''
